@@ -20,7 +20,7 @@ Step ==
   /\ l' = l + 1
   /\ LET e == Rec[l] IN
      CASE e.ev = "Reset" ->
-            /\ depth' = e.depth /\ arr' = <<>> /\ ist' = <<>> /\ dgen' = <<>> /\ lastAcc' = <<>>
+            /\ depth' = e.depth /\ arr' = <<>> /\ ist' = <<>> /\ dgen' = <<>> /\ lastAcc' = <<>> /\ accHi' = <<>>
             /\ taken' = {} /\ wasRead' = {} /\ seenOut' = {} /\ errs' = 0 /\ fzRead' = {} /\ fzTaken' = {} /\ viol' = {}
             /\ run' = e.run
        [] e.ev = "Arrive" -> AbsArrive(e.w, e.sn, e.k, e.kind, e.ord) /\ UNCHANGED run
